@@ -235,6 +235,11 @@ def check_step(nm, res, ev, sweeps, ref, seen, viol, ctx, counters):
 
 
 def run_case(case):
+    # this check forks children that solve; it keeps the single-thread kernel throughout (a forked child must not enter a threaded
+    # kernel whose thread pool the parent has already started - the harness's constraint, not the property's subject)
+    from bldfm import config as _rc
+
+    _rc.NUM_THREADS = 1
     return {"pairs": pairs, "sequence": sequence, "truncate": truncate, "corrupt": corrupt, "kill": kill,
             "concurrent": concurrent, "inherited": inherited}[case["kind"]](case)
 
